@@ -89,6 +89,8 @@ def r1_aligned_views(ctx):
             facts |= edge_facts(t, lab)
         if (in_overlay, False) not in facts:
             ok = False
+    ctx.ob(ga.where, "field access: an assigned value wins over the cached / parsed one (every other return is reached only for names that are not in the overlay)", ok, str(order),
+           key="C05-R1|getattr-order", definite=True)
     first = [r for r in rets if sym.canon(r.ast.value) == f"self._set_values[{v}]"]
     if first:
         facts = set()
